@@ -1,6 +1,6 @@
 import logging
 
-from .util import Location, cached_property, context_property
+from .util import Location, cached_property, context_property, cycle_guard
 from .compat import iteritems
 
 if False:
@@ -336,19 +336,15 @@ class MultiValue(Object):
 
     def get_rvalues(self, ctx):
         # type: (EvalCtx) -> list[Object]
-        try:
-            return self._rvalues
-        except AttributeError:
-            pass
-
-        result = self._rvalues = list(filter(None, (
-            v.resolve(ctx) for v in self.values)))
-        return result
+        return cycle_guard.cached(  # type: ignore[no-any-return]
+            self.__dict__, '_rvalues',
+            lambda: list(filter(None, (v.resolve(ctx) for v in self.values))))
 
     def attr_list(self, ctx):
         # type: (EvalCtx) -> AttrList
         result: set[str] = set()
         if getattr(self, '_busy', False):
+            cycle_guard.fired += 1
             return result  # one of the assigned values is (made of) this very attribute
         self._busy = True
         try:
@@ -361,6 +357,7 @@ class MultiValue(Object):
     def get_attr(self, ctx, name):
         # type: (EvalCtx, str) -> Object | Name | None
         if getattr(self, '_busy', False):
+            cycle_guard.fired += 1
             return None
         self._busy = True
         try:
@@ -398,6 +395,7 @@ class ClassObject(Object, Callable):
         # type: () -> Attributes
         attrs = {}
         if getattr(self, '_busy', False):
+            cycle_guard.fired += 1
             return attrs  # an inheritance cycle
         self._busy = True
         try:
@@ -444,6 +442,7 @@ class InstanceValue(Object):
         # attributes assigned through self, in this class and in its bases
         attrs = {}  # type: Attributes
         if getattr(self, '_busy', False):
+            cycle_guard.fired += 1
             return attrs  # an inheritance cycle
         self._busy = True
         try:
